@@ -98,6 +98,21 @@ CHECKS.update({
             "note": "Trusted base: kernel, fake devices (socket reads capped at 120 bytes as the library asks), asyncio transport stubs. Time-reply payloads and TCP watchdog probes are normalised (clock driven). Sampling of streams, segmentations and schedules."},
 })
 
+CHECKS.update({
+    "C07": {"category": "exploration", "design_ref": "DESIGN.md 5/C07",
+            "technique": "deterministic simulation: multi-line chunks and seeded reader/pump schedules; every write attributed to the line being processed through begin-markers, compared with the model's per-wake-up bursts",
+            "text": "Smart-sleep histories delivered in multi-line chunks under serial, random-walk and PCT reader/pump schedules (threaded) and on the asyncio loop; each write is attributed to the line being processed; traffic for a sleeping node may only appear in the burst of one of its wake-ups, replies for awake nodes before the next line is processed.",
+            "note": _NET_NOTE},
+    "C09": {"category": "exploration", "design_ref": "DESIGN.md 5/C09",
+            "technique": "deterministic simulation with fault injection: simulated bootloader peers over a link that drops, duplicates and delays frames on the simulated clock; independent CRC-16/MODBUS and reassembly at the peer; bounded-liveness check after faults stop",
+            "text": "Simulated MYSBootloader peers fetch images (bytes or Intel-HEX via SimFS) from the real gateway over a lossy, duplicating, delaying link with retries on the simulated clock; the peer reassembles, compares every copy of every block, checks padding/length and its own bitwise CRC against the advertised one, and must finish within a bound once faults stop.",
+            "note": "Trusted base: kernel, link/peer simulation in checks/C09.py, own CRC and HEX writer in model/ota_model.py. Image sizes <= 2 KiB in the quick tier (boundary lengths), up to 32 KiB in 4% of thorough runs."},
+    "C17": {"category": "exploration", "design_ref": "DESIGN.md 5/C17",
+            "technique": "deterministic simulation: simulated MQTT broker with foreign traffic, duplicate deliveries and raising callbacks; prefix configuration swarm; loop-back of every publication through a second passive gateway",
+            "text": "Partly a simulation target: prefixes are sampled through run configurations (incl. digit-only and message-like ones); the simulated broker delivers own and foreign topics, duplicates, and raises from publish/subscribe callbacks; acceptance is judged by the model splitting levels, subscriptions by wildcard matching, publications by loop-back through a passive twin.",
+            "note": "Samples the prefix x topic space, does not decide it over all strings. Topics whose five levels are not a message header are only checked for 'recv() does not raise'. A subscribe call that raised is exempt from the coverage requirement."},
+})
+
 NOT_APPLICABLE = {
     "C02": "pure function of its arguments (Message.decode/encode/copy): no schedule, clock, I/O, fault or history can change the result, so deterministic simulation has nothing to decide (DESIGN.md section 6)",
     "C03": "acceptance is a pure function of (version, line); an exhaustive header x payload-class product is table enumeration, not a search over schedules or faults (DESIGN.md section 6)",
